@@ -394,6 +394,125 @@ def r3_negative_literal_guard(ctx, rule="C10.R3"):
     ctx.require(rule, 2)
 
 
+def _expected_chain(ops):
+    """the tree the ranks prescribe for x ops[0] x ops[1] x ... (left-associative, tighter binds first)"""
+    operands = ["x"]
+    stack = []
+    for op in ops:
+        while stack and RANK[stack[-1]] >= RANK[op]:
+            o = stack.pop()
+            r = operands.pop()
+            l = operands.pop()
+            operands.append("(%s %s %s)" % (l, o, r))
+        stack.append(op)
+        operands.append("x")
+    while stack:
+        o = stack.pop()
+        r = operands.pop()
+        l = operands.pop()
+        operands.append("(%s %s %s)" % (l, o, r))
+    return operands[0]
+
+
+def _canon(tree):
+    """a printed tree with chains of the same associative operator (AND .. AND, OR .. OR) regrouped to the left:
+    their grouping is not observable"""
+    toks = tree.replace("(", " ( ").replace(")", " ) ").split()
+    pos = [0]
+
+    def parse():
+        t = toks[pos[0]]
+        if t == "(":
+            pos[0] += 1
+            l = parse()
+            op = toks[pos[0]]
+            pos[0] += 1
+            r = parse()
+            pos[0] += 1      # ")"
+            return (op, l, r)
+        pos[0] += 1
+        return t
+
+    def flat(t, op):
+        if isinstance(t, tuple) and t[0] == op:
+            return flat(t[1], op) + flat(t[2], op)
+        return [norm(t)]
+
+    def norm(t):
+        if not isinstance(t, tuple):
+            return t
+        if t[0] in ("And", "Or"):
+            items = flat(t, t[0])
+            acc = items[0]
+            for x in items[1:]:
+                acc = (t[0], acc, x)
+            return acc
+        return (t[0], norm(t[1]), norm(t[2]))
+
+    def show(t):
+        return "(%s %s %s)" % (show(t[1]), t[0], show(t[2])) if isinstance(t, tuple) else t
+    try:
+        return show(norm(parse()))
+    except (IndexError, ValueError):
+        return tree
+
+
+def r10_binary_chains(ctx, rule="C10.R10"):
+    """`a op1 b op2 c op3 d`: the parser reads the right side first (as the already grouped tree of
+    `b op2 c op3 d`) and then calls binary_expr, which rotates the new operator down the left spine of that tree
+    while it does not bind looser.  R1 decides the rotation *predicate* on every pair of operators; here the
+    rotation itself is interpreted (TagFlow) on every chain of three operators, one per precedence level: the
+    right side is built by the same function, innermost first, and the resulting tree is compared with the one
+    the ranks prescribe.  A rotation that re-inserts its left part without ordering it again is right for two
+    operators and wrong for `a AND b OR c OR d`."""
+    prog = ctx.prog
+    eng = tf.Engine(prog)
+    eng.trunc_depth = 12
+    fns = [f for f in prog.fns.values() if f.name == "binary_expr" and f.impl
+           and f.impl["self_ty"].endswith("Positioned<expr::types::Expression>")]
+    if len(fns) != 1:
+        raise CheckError("anchor binary_expr: %d matches" % len(fns))
+    fn = fns[0]
+
+    def leaf():
+        return eng.make(POS, "Positioned", {0: eng.make(EXPR, "IntegerLiteral")})
+
+    reps = {}
+    for op, r in sorted(RANK.items()):
+        reps.setdefault(r, op)
+    ops_all = [reps[r] for r in sorted(reps)]
+    # both operators of a level where a level has two that differ in kind (And/Or are separate levels already)
+    n = 0
+    bad = 0
+
+    def build(ops):
+        """x ops[0] (x ops[1] (...)) as the parser builds it: right side first"""
+        if not ops:
+            return [leaf()]
+        rights = build(ops[1:])
+        out = []
+        for r in rights:
+            out.extend(eng.summary(fn, (leaf(), tf.Tag(OP, ops[0]), r, tf.TOP)))
+        return out
+
+    import itertools
+    for ops in itertools.product(ops_all, repeat=3):
+        n += 1
+        got = sorted({_tree(r) for r in build(list(ops))})
+        want = _expected_chain(list(ops))
+        key = "%s:%s" % (rule, ",".join(ops))
+        if any("?" in g for g in got) or not got:
+            ctx.unknown(rule, key, fn.loc, "abstract result %s" % got)
+            continue
+        if sorted({_canon(g) for g in got}) != [_canon(want)]:
+            bad += 1
+            ctx.violation(rule, key, fn.loc, "`a %s b %s c %s d` is built as %s, the ranks prescribe %s" % (ops[0], ops[1], ops[2], got, want))
+        else:
+            ctx.ok(rule, key, fn.loc, want)
+    ctx.analysed_units(rule, chains=n, levels=ops_all)
+    ctx.require(rule, 100)
+
+
 def run(ctx):
     common.install(ctx)
     eng = tf.Engine(ctx.prog)
@@ -410,5 +529,6 @@ def run(ctx):
     c09.r14_parenthesis_is_only_a_primary(ctx, "C10.R8")
     # a literal whose text spells a number beyond the range of its type is an error, not an infinity
     c06.r14_floats_from_outside_are_finite(ctx, "C10.R9", crate="rusty_parser", module="::expr::", floor=2)
+    r10_binary_chains(ctx)
     if eng.imprecise:
         ctx.notes.append("abstract interpreter imprecision: %s" % eng.imprecise[:5])
